@@ -49,6 +49,52 @@ def k3_class(standalone, names):
     return any(up(ch.tasks[n], set()) for ch in standalone for n in names if n in ch.tasks)
 
 
+def force_history(ctx, b, spec, mains, data, rng, case):
+    """execute [value of every task of every member chain; mc.force(name, delete_data=D); a few value requests] on a fresh MultiChain
+    and express it as a history of the store machine (the MultiChain.force step = one chain_force per member chain, in order)"""
+    from taskchain import MultiChain
+    mod = b.module()
+    mc = MultiChain([pl.make_config(b, data, main=m) for m in mains])
+    chains = [mc[pl.make_config(b, data, main=m).name] for m in mains]
+    rec = []
+    mod.RUNLOG.clear(); mod.FAIL.clear()
+
+    def record(op, **kw):
+        r = {'op': op, **kw}
+        r['runs'] = [x[2] for x in mod.RUNLOG[record.before:]]
+        record.before = len(mod.RUNLOG)
+        r['state'] = machine.snapshot(chains)
+        rec.append(r)
+        return r
+    record.before = 0
+    for ch in chains:
+        for t in ch.tasks.values():
+            kind = machine.class_of(t, spec)['kind']
+            v = mod.unwrap(kind, t.value)
+            record({'op': 'value', 'failing': []}, task=t, value=v)
+    names = sorted({t.slugname for ch in chains for t in ch.tasks.values()})
+    slug = rng.choice(names)
+    D = rng.random() < 0.5
+    mc.force(slug, delete_data=D)
+    members = [ch for ch in chains]
+    for k, ch in enumerate(members):
+        S = [t for t in ch.tasks.values() if t.slugname == slug]
+        r = record({'op': 'chain_force', 'del': D, 'recompute': False}, chain=ch, S=S, order=[])
+        r['_skip'] = k < len(members) - 1          # only the state after the whole MultiChain.force is observable
+    for _ in range(3):
+        ch = rng.choice(chains)
+        t = rng.choice(list(ch.tasks.values()))
+        kind = machine.class_of(t, spec)['kind']
+        v = mod.unwrap(kind, t.value)
+        record({'op': 'value', 'failing': []}, task=t, value=v)
+    seg = machine.portable({'chains': chains, 'rec': rec}, spec)
+    req, io = machine.assemble([seg])
+    for o, r in zip(io, rec):
+        if r.get('_skip'):
+            o['_skip'] = True
+    return req, io, {**case, 'force': {'task': slug, 'delete_data': D}}
+
+
 def run(ctx):
     quiet()
     from taskchain import MultiChain
@@ -56,6 +102,7 @@ def run(ctx):
     root = ctx.tmpdir()
     n = ctx.n(70, 900)
     reqs, metas = [], []
+    freqs = []
     for i in range(n):
         rng = ctx.rng('multi', i)
         spec, variants = machine.gen_family(rng, n_variants=rng.randint(2, 5), kinds=[k for k in gen.KINDS_P if k not in ('dir', 'continues')])
@@ -185,8 +232,44 @@ def run(ctx):
                         if t.slugname == t0.slugname and not t.is_forced:
                             ctx.fail('forcing through the MultiChain did not reach every member chain', full_case, {'task': t.fullname})
                 ctx.count('value+force probes')
+                # ---- forcing with flags: MultiChain.force(tasks, recompute, delete_data) = Chain.force on every member chain
+                from tcv.data_kinds import persisting
+                for ch in chains:
+                    for t in ch.tasks.values():
+                        _ = t.value                     # everything computed and stored
+                R, D = rng.random() < 0.5, rng.random() < 0.5
+                F = {}
+                for ch in chains:
+                    F.update(machine.downstream(ch, [t for t in ch.tasks.values() if t.slugname == t0.slugname]))
+                mod.RUNLOG.clear()
+                mc.force(t0.slugname, recompute=R, delete_data=D)
+                ran = [x[2] for x in mod.RUNLOG]
+                ctx.count(f'force-flags:recompute={R},delete={D}')
+                probe = {'task': t0.slugname, 'recompute': R, 'delete_data': D}
+                for x, t in F.items():
+                    if R:
+                        if ran.count(x) < 1:
+                            ctx.fail('MultiChain.force(recompute=True) did not recompute a task downstream of the named one in some member chain', full_case, {**probe, 'not_run': t.fullname})
+                        elif t._data is None or (persisting(t) and not t.has_data):
+                            ctx.fail('a task recomputed through MultiChain.force has no result afterwards', full_case, {**probe, 'task': t.fullname})
+                    else:
+                        if not t.is_forced:
+                            ctx.fail('MultiChain.force did not mark a task downstream of the named one in some member chain', full_case, {**probe, 'task': t.fullname})
+                        if D and persisting(t) and t.has_data:
+                            ctx.fail('MultiChain.force(delete_data=True) left the stored result of a forced task', full_case, {**probe, 'task': t.fullname})
+                        if not D and persisting(t) and not t.has_data:
+                            ctx.fail('MultiChain.force without delete_data removed a stored result', full_case, {**probe, 'task': t.fullname})
+                for x in set(ran) - set(F):
+                    ctx.fail('MultiChain.force ran a task that is not downstream of the named one', full_case, {**probe, 'ran': [t.fullname for ch in chains for t in ch.tasks.values() if id(t) == x][:1]})
             except (KeyError, ValueError):
                 ctx.count('probe-skipped:ambiguous-name')
+        # ---- correspondence with the store machine: values everywhere, MultiChain.force (as Chain.force on each member, theorem
+        #      C13.multichain_force_fans_out), then some value requests; a fresh MultiChain on a fresh directory
+        if names0 and not k6_class(standalone):
+            try:
+                freqs.append(force_history(ctx, b, spec, mains, root / f'dm{i}', ctx.rng('multi-force', i), full_case))
+            except (KeyError, ValueError):
+                ctx.count('force-history-skipped')
         # ---- oracle 4 (a share of the cases): the same list in name mode — members must be the standalone name-mode chains
         if i % 4 == 0:
             try:
@@ -208,6 +291,19 @@ def run(ctx):
                                  full_case, {'tasks': bad[:3], 'member': [a.get(k) for k in bad[:3]], 'standalone': [s_[k] for k in bad[:3]]})
                         break
         b.cleanup_module()
+    # ---- model side of the force histories
+    fr = [x for x in freqs if x]
+    for (req, io, case_), mo in zip(fr, ctx.model.many([x[0] for x in fr])):
+        ctx.count('force-histories')
+        if 'outs' not in mo:
+            ctx.diverge('multichain:force-history', case_, None, mo); continue
+        for k, (a, m_) in enumerate(zip(io, mo['outs'])):
+            if a.get('_skip'):
+                continue
+            m_ = machine.canon_model_out(m_, a)
+            a = {kk: vv for kk, vv in a.items() if not kk.startswith('_')}
+            if a != m_:
+                ctx.diverge('multichain:force-history', case_, {'op_index': k, 'impl': a}, {'model': m_}); break
     # the recorded K6 witness
     k6_witness(ctx, root)
 
